@@ -108,7 +108,7 @@ func addLifeStuff(r rng, p *sdl.Program) {
 		}
 		// a component whose definition is contributed by a definition-registry post-processor
 		if r.p(0.15) {
-			t := &sdl.Type{Name: fmt.Sprintf("%sTC", p.ID), Init: true, APS: r.p(0.3)}
+			t := &sdl.Type{Name: fmt.Sprintf("%sTC", p.ID), Init: true, APS: r.p(0.3), Lazy: r.p(0.4)}
 			p.Types = append(p.Types, t)
 			p.Instances = append(p.Instances, &sdl.Instance{ID: fmt.Sprintf("c%d", len(p.Instances)), Type: t.Name, Contributed: true})
 		}
@@ -202,6 +202,17 @@ func genClose(r rng, seed uint64, id string) *sdl.Program {
 		p.Types = append(p.Types, t)
 		p.Instances = append(p.Instances, &sdl.Instance{ID: fmt.Sprintf("c%d", ni), Type: t.Name})
 		ni++
+	}
+	// application runners: when one of them fails, Run fails - and the application still
+	// shuts the container down
+	if r.p(0.35) {
+		for j := 0; j < r.n(1, 2); j++ {
+			t := &sdl.Type{Name: fmt.Sprintf("%sT%d", id, nt), Role: "runner"}
+			nt++
+			p.Types = append(p.Types, t)
+			p.Instances = append(p.Instances, &sdl.Instance{ID: fmt.Sprintf("c%d", ni), Type: t.Name})
+			ni++
+		}
 	}
 	// a post-processor replaces one closer by an object of another type that has no Close()
 	if r.p(0.2) {
